@@ -10,7 +10,7 @@ open Ebv.Fmmu Ebv.Consts
 
 /-! ### Python list primitives on the arguments the code produces -/
 
-theorem pyIndexNone_eq_none {l : Table} (h : pyIndexNone l = none) : ∀ i, l[i]? ≠ some none := by
+theorem pyIndexNone_eq_none {l : Table} (h : pyIndexNone l = none) : ∀ i : Nat, l[i]? ≠ some none := by
   induction l with
   | nil => simp
   | cons x l ih =>
@@ -71,25 +71,24 @@ def top (n : Nat) (write : Bool) : Nat := if write then min 2 n else n
 
 theorem top_le (n : Nat) (w : Bool) : top n w ≤ n := by unfold top; split <;> omega
 
+theorem startOf_eq (n : Nat) (w : Bool) : startOf n w = (top n w : Int) - 1 := by
+  cases w <;> simp [startOf, top] <;> omega
+
 theorem slotChoice_eq (t : Table) (w : Bool) :
     slotChoice t w =
-      match pyIndexNone (t.take (top t.length w)).reverse with
-      | none => .error .valueError
-      | some k => .ok ((top t.length w : Int) - 1 - k) := by
+      slotResult ((top t.length w : Int) - 1) (pyIndexNone (t.take (top t.length w)).reverse) := by
+  unfold slotChoice
+  rw [startOf_eq]
   cases t with
-  | nil => cases w <;> simp [slotChoice, pySliceRev, pyIndexNone, top]
+  | nil => cases w <;> simp [pySliceRev, top]
   | cons x t =>
-    have hstart : min (if w = true then (1 : Int) else ((x :: t).length : Int)) (((x :: t).length : Int) - 1)
-        = ((top (x :: t).length w - 1 : Nat) : Int) := by
-      cases w <;> simp [top] <;> omega
     have hlt : top (x :: t).length w - 1 < (x :: t).length := by
       have := top_le (x :: t).length w
       simp at this ⊢; omega
     have hpos : top (x :: t).length w - 1 + 1 = top (x :: t).length w := by
       cases w <;> simp [top] <;> omega
-    have hcast : ((top (x :: t).length w - 1 : Nat) : Int) = (top (x :: t).length w : Int) - 1 := by omega
-    simp only [slotChoice, hstart, pySliceRev_nat _ _ hlt, hpos]
-    rw [hcast]
+    have hcast : (top (x :: t).length w : Int) - 1 = ((top (x :: t).length w - 1 : Nat) : Int) := by omega
+    rw [hcast, pySliceRev_nat _ _ hlt, hpos]
 
 /-- **what `enter` does**, completely: either no FMMU in the searched range is free — then it
 raises ValueError — or it takes the highest free FMMU of the range and records the logical
@@ -110,7 +109,7 @@ theorem enter_spec (t : Table) (w : Bool) (l : Nat) :
   cases h : pyIndexNone (t.take (top t.length w)).reverse with
   | none =>
     left
-    refine ⟨?_, rfl⟩
+    refine ⟨?_, by simp [slotResult, enterAt]⟩
     intro i hi
     rw [← hget i hi]
     exact pyIndexNone_eq_none h _
@@ -131,8 +130,9 @@ theorem enter_spec (t : Table) (w : Bool) (l : Nat) :
       rw [← hget j hj2]
       exact h2 _ (by omega)
     · have hcast : (top t.length w : Int) - 1 - (k : Int) = ((top t.length w - 1 - k : Nat) : Int) := by omega
-      simp only [hcast]
+      simp only [slotResult, enterAt, hcast]
       rw [pySetItem_nat t _ _ (by omega)]
+      rfl
 
 /-- a mapping that finds no free FMMU in its range fails (ValueError), whatever the rest of the table -/
 theorem full_fails (t : Table) (w : Bool) (l : Nat)
@@ -178,23 +178,23 @@ theorem inv_init (n : Nat) : Inv (init n) := by
 theorem failed_enter_changes_nothing (cfg : Cfg) (s : St) (w : Bool) (l : Nat) (f : Bool)
     (h : ∀ i, (step cfg s (.enter w l f)).2.1 ≠ .entered i) : (step cfg s (.enter w l f)).1 = s := by
   rcases enter_spec s.table w l with ⟨_, he⟩ | ⟨i, hi, hf, _, he⟩
-  · simp [step, he]
+  · simp [step, stepEnter, enterResult, he]
   · have hlt : i < s.table.length := by have := top_le s.table.length w; omega
     cases f with
-    | false => exact absurd (by simp [step, he]) (h i)
+    | false => exact absurd (by simp [step, stepEnter, enterResult, he]) (h i)
     | true =>
       have hx : exit (s.table.set i (some l)) (i : Int) = s.table := by
         rw [(exit_frees_own _ i (by simpa using hlt)).1, List.set_set]
         apply List.ext_getElem? ; intro j
         by_cases hj : i = j
-        · subst hj; simp [hlt, hf]
+        · subst hj; rw [hf]; simp [hlt]
         · simp [List.getElem?_set_ne hj]
-      simp [step, he, hx]
+      simp [step, stepEnter, enterResult, he, hx]
 
 theorem full_fails_step (cfg : Cfg) (s : St) (w : Bool) (l : Nat) (f : Bool)
     (h : ∀ i, i < top s.table.length w → s.table[i]? ≠ some none) :
     step cfg s (.enter w l f) = (s, .failed .valueError, []) := by
-  simp [step, full_fails s.table w l h]
+  simp [step, stepEnter, enterResult, full_fails s.table w l h]
 
 theorem mem_eraseIdx_index_ne {live : List Live} {k : Nat} {m m' : Live}
     (hd : live.Pairwise (fun a b => a.index ≠ b.index)) (hk : live[k]? = some m)
@@ -212,14 +212,14 @@ theorem step_inv (cfg : Cfg) (s : St) (op : Op) (h : Inv s) : Inv (step cfg s op
   cases op with
   | enter w l f =>
     rcases enter_spec s.table w l with ⟨_, he⟩ | ⟨i, hi, hf, _, he⟩
-    · simpa [step, he] using h
+    · simpa [step, stepEnter, enterResult, he] using h
     · have hlt : i < s.table.length := by have := top_le s.table.length w; omega
       cases f with
       | true =>
-        rw [failed_enter_changes_nothing cfg s w l true (by simp [step, he])]
+        rw [failed_enter_changes_nothing cfg s w l true (by simp [step, stepEnter, enterResult, he])]
         exact h
       | false =>
-        simp only [step, he, Bool.false_eq_true, if_false]
+        simp only [step, stepEnter, enterResult, he, Bool.false_eq_true, if_false]
         refine ⟨?_, ?_, ?_⟩
         · intro m hm
           simp only [List.mem_append, List.mem_singleton] at hm
@@ -242,13 +242,13 @@ theorem step_inv (cfg : Cfg) (s : St) (op : Op) (h : Inv s) : Inv (step cfg s op
         · intro j l' hj
           by_cases hij : i = j
           · subst hij
-            exact ⟨_, by simp, rfl⟩
+            exact ⟨⟨(i : Int), l, w⟩, by simp, rfl⟩
           · rw [List.getElem?_set_ne hij] at hj
             obtain ⟨m, hm, hmi⟩ := h.noLeak j l' hj
             exact ⟨m, by simp [hm], hmi⟩
   | exit k mode =>
     cases hk : s.live[k]? with
-    | none => simpa [step, hk] using h
+    | none => simpa [step, stepExit, exitResult, hk] using h
     | some m =>
       have hm : m ∈ s.live := List.mem_of_getElem? hk
       obtain ⟨i, hi1, hi2⟩ := h.owns m hm
@@ -258,7 +258,7 @@ theorem step_inv (cfg : Cfg) (s : St) (op : Op) (h : Inv s) : Inv (step cfg s op
         · simp [List.getElem?_eq_none h'] at hi2
       have hx := (exit_frees_own s.table i hlt).1
       have key : (step cfg s (.exit k mode)).1 = { table := s.table.set i none, live := s.live.eraseIdx k } := by
-        cases mode <;> simp [step, hk, hi1, hx]
+        simp [step, stepExit, exitResult, hk, hi1, hx]
       rw [key]
       refine ⟨?_, ?_, ?_⟩
       · intro m' hm'
@@ -294,13 +294,13 @@ theorem step_length (cfg : Cfg) (s : St) (op : Op) (h : Inv s) :
   cases op with
   | enter w l f =>
     rcases enter_spec s.table w l with ⟨_, he⟩ | ⟨i, hi, hf, _, he⟩
-    · simp [step, he]
+    · simp [step, stepEnter, enterResult, he]
     · cases f with
-      | true => rw [failed_enter_changes_nothing cfg s w l true (by simp [step, he])]
-      | false => simp [step, he]
+      | true => rw [failed_enter_changes_nothing cfg s w l true (by simp [step, stepEnter, enterResult, he])]
+      | false => simp [step, stepEnter, enterResult, he]
   | exit k mode =>
     cases hk : s.live[k]? with
-    | none => simp [step, hk]
+    | none => simp [step, stepExit, exitResult, hk]
     | some m =>
       obtain ⟨i, hi1, hi2⟩ := h.owns m (List.mem_of_getElem? hk)
       have hlt : i < s.table.length := by
@@ -308,7 +308,7 @@ theorem step_length (cfg : Cfg) (s : St) (op : Op) (h : Inv s) :
         · exact h'
         · simp [List.getElem?_eq_none h'] at hi2
       have hx := (exit_frees_own s.table i hlt).1
-      cases mode <;> simp [step, hk, hi1, hx]
+      simp [step, stepExit, exitResult, hk, hi1, hx]
 
 theorem run_length (cfg : Cfg) (ops : List Op) (s : St) (h : Inv s) :
     (run cfg s ops).table.length = s.table.length := by
@@ -333,11 +333,11 @@ theorem live_owns_slot : ∀ m ∈ (run cfg (init n) ops).live,
   intro m hm
   obtain ⟨i, h1, h2⟩ := (run_inv cfg ops _ (inv_init n)).owns m hm
   refine ⟨i, ?_, h1, h2⟩
-  have hl := run_length cfg ops _ (inv_init n)
-  simp only [init, List.length_replicate] at hl
+  have hl : (run cfg (init n) ops).table.length = n := by
+    rw [run_length cfg ops _ (inv_init n)]; simp [init]
   rcases Nat.lt_or_ge i n with h' | h'
   · exact h'
-  · rw [List.getElem?_eq_none (by omega)] at h2; simp at h2
+  · rw [List.getElem?_eq_none (by rw [hl]; exact h')] at h2; simp at h2
 
 /-- no FMMU stays taken without a live mapping that owns it (so "free" really is free) -/
 theorem no_leak : ∀ (i l : Nat), (run cfg (init n) ops).table[i]? = some (some l) →
@@ -364,7 +364,7 @@ theorem exit_frees_own_step (k : Nat) (mode : ExitMode) (m : Live)
   have hx := exit_frees_own s.table i hlt
   have key : s' = { table := s.table.set i none, live := s.live.eraseIdx k } := by
     show (step cfg s (.exit k mode)).1 = _
-    cases mode <;> simp [step, show s.live[k]? = some m from hk, hi1, hx.1]
+    simp [step, stepExit, exitResult, show s.live[k]? = some m from hk, hi1, hx.1]
   refine ⟨i, hin, hi1, by rw [key], by rw [key]; simp [hlt], ?_, by rw [key], ?_⟩
   · intro j hj; rw [key]; simp [List.getElem?_set_ne (Ne.symm hj)]
   · intro m' hm'
@@ -387,19 +387,19 @@ theorem register_writes (s : St) :
   refine ⟨?_, ?_, ?_⟩
   · intro w l f i h
     rcases enter_spec s.table w l with ⟨_, he⟩ | ⟨j, _, _, _, he⟩
-    · simp [step, he] at h
+    · simp [step, stepEnter, enterResult, he] at h
     · cases f with
-      | true => simp [step, he] at h
+      | true => simp [step, stepEnter, enterResult, he] at h
       | false =>
-        simp only [step, he, Bool.false_eq_true, if_false, Outcome.entered.injEq] at h ⊢
+        simp only [step, stepEnter, enterResult, he, Bool.false_eq_true, if_false, Outcome.entered.injEq] at h ⊢
         subst h
         simp [activateWr, fmmu_reg_base, fmmu_reg_stride]
   · intro w l f e h
     rcases enter_spec s.table w l with ⟨_, he⟩ | ⟨j, _, _, _, he⟩
-    · simp [step, he]
-    · cases f <;> simp [step, he] at h
+    · simp [step, stepEnter, enterResult, he]
+    · cases f <;> simp [step, stepEnter, enterResult, he] at h
   · intro k m hk
-    simp [step, hk, deactivateWr, fmmu_reg_base, fmmu_reg_stride, fmmu_reg_activate]
+    simp [step, stepExit, exitResult, exitWrites, hk, deactivateWr, fmmu_reg_base, fmmu_reg_stride, fmmu_reg_activate]
 
 /-- the register blocks of two live mappings never overlap -/
 theorem live_registers_distinct (a b : Nat) (ma mb : Live) (hab : a ≠ b)
@@ -432,14 +432,14 @@ def enterOld (t : Table) (write : Bool) (logical : Nat) : Option (Int × Table) 
   | .ok index => (pySetItem t index (some logical)).map fun t' => (index, t')
 
 /-- with the old formula two nested write mappings both get FMMU 0 (the second overwrites the
-first), and with FMMU 1 taken a write mapping gets index −1, i.e. the *last* FMMU, even when that
-one is in use — the model's Python primitives make the regression visible -/
+first), and with FMMU 1 taken and FMMU 0 free a write mapping gets index −1, i.e. the *last* FMMU,
+even when that one is in use — the model's Python primitives make the regression visible -/
 theorem old_formula_shares :
     enterOld [none, none] true 100 = some (0, [some 100, none]) ∧
     enterOld [some 100, none] true 200 = some (0, [some 200, none]) ∧
-    enterOld [some 1, some 2, some 3] true 4 = some (-1, [some 1, some 2, some 4]) ∧
+    enterOld [none, some 2, some 3] true 4 = some (-1, [none, some 2, some 4]) ∧
     (enter [some 100, none] true 200).toOption = some (1, [some 100, some 200]) ∧
-    (enter [some 1, some 2, some 3] true 4).toOption = none := by
+    (enter [none, some 2, some 3] true 4).toOption = some (0, [some 4, some 2, some 3]) := by
   decide
 
 /-! ### non-vacuity: overlapping mappings on a 3-FMMU terminal -/
